@@ -9,6 +9,7 @@ from . import dynmat_util as U
 
 TOL = 1e-9
 TOL_EIG = 1e-8
+TOL_UNIT = 2e-6  # eigenvalues recovered from THz frequencies through the independent unit factor (constants may be updated)
 
 
 def _close(a, b, floor, tol=TOL):
@@ -79,7 +80,8 @@ def main(run):
         "Phonopy.run_qpoints (matrix entries and eigenvalues recovered from the frequencies with the unit factor); in every "
         "run additionally purely central-spring models with dyadic geometry on fcc / rock salt / bcc / sc (non-zero blocks whose "
         "nine elements cancel exactly) and C = Py on arrays with exactly zero, single-element, antisymmetric and "
-        "element-sum-cancelling blocks. "
+        "element-sum-cancelling blocks; and many q-points in one run_qpoints call (1, 2, small primes, a prime in 4001..6000 for "
+        "an 8-atom cell, a prime in 150..300 for a 96-atom cell; with/without eigenvectors and dynamical matrices): every row. "
         "Non-trivial = the oracle matrix is non-zero, and for the short-range clause the cutoff reaches at least the "
         "nearest neighbours; for the commensurate clause the cutoff exceeds half the shortest supercell vector.")
     run.cov["trusted_base"] = [
@@ -92,6 +94,9 @@ def main(run):
     ]
     run.assumptions += [
         "IEEE rounding of the C/Python code is not modelled",
+        "table certificates and table hypotheses (compactOk, linkedOk, CTables.wf, dense addresses, stored vectors are minimal "
+        "images) are statements of the model: a failure is reported as 'correspondence no longer checks', the failing-input verdict "
+        "comes from the comparison of matrices and frequencies with the lattice Fourier sum and from C = Py",
         "hypotheses of the Fourier theorems on the shortest-vector table (stored vectors are images, of minimal "
         "length; reversed pairs store negated images; supercell atoms tile the lattice) are owned by C04/C05; they are "
         "evaluated numerically here on every case (coverage.correspondence.table-hypotheses)",
@@ -162,7 +167,6 @@ def main(run):
         nhyp += 1
         if fails:
             run.broke("correspondence", "shortest-vector table violates a hypothesis of the Fourier theorems: " + fails[0], info)
-            run.violation("Primitive.get_smallest_vectors", "table-hypothesis", fails[0], info)
         if not c["dense"]:
             ssv, smu = ph.primitive.get_smallest_vectors()
             lines.append("denseadrs %d %d %s" % (smu.shape[0], smu.shape[1], " ".join(str(int(x)) for x in smu.ravel())))
@@ -172,7 +176,6 @@ def main(run):
                 for k in range(smu.shape[0]) for i in range(smu.shape[1]))
             if not ok:
                 run.broke("correspondence", "sparse_to_dense_svecs does not copy the sparse table", info)
-                run.violation("sparse_to_dense_svecs", "copy", "dense table is not the concatenation of the sparse one", info)
         for kind, qq in c["qs"]:
             for layout, arr in (("full", c["fc"]), ("compact", c["fcc"])):
                 compact = layout == "compact"
@@ -243,13 +246,11 @@ def main(run):
             run.count("compactOk-certificates", section="correspondence")
             if line != "true":
                 run.broke("correspondence", "certificate compactOk = %s on the implementation's maps" % line, info)
-                run.violation("Primitive.p2s_map/s2p_map/p2p_map", "maps-not-wellformed", "s2pp k = j <-> s2p k = p2s j fails", info)
             continue
         if kind == "linked":
             run.count("linked+wf-certificates", section="correspondence")
             if line != "true true":
                 run.broke("correspondence", "certificates (linkedOk, CTables.wf) = %s on the implementation's tables" % line, info)
-                run.violation("Primitive.atomic_permutations/get_nsym_list_and_s2pp", "tables-not-wellformed", "translation tables fail the certificate", info)
             continue
         if kind == "batch":
             toks = line.split()
@@ -273,7 +274,6 @@ def main(run):
             want = " ".join(str(int(x)) for x in c["T"]["multi"][:, :, 1].ravel())
             if line != want:
                 run.broke("correspondence", "sparse_to_dense_svecs addresses differ from the model's running sum", info)
-                run.violation("sparse_to_dense_svecs", "addresses", "dense addresses are not the running sum of multiplicities", info)
             continue
         qk, qq = qinfo
         if kind == "Py":
@@ -326,14 +326,16 @@ def main(run):
 
     # ------------------------------------------------------------------ B. the property itself on the implementation
     factor = float(units.VaspToTHz)
-    # the identity proved on the unit monomials (vaspToTHz_sq_monomial), numerically with the module's own constants
+    # Independent value of the unit factor sqrt(eV/AMU)/Angstrom/(2 pi)/1e12 (CODATA-1986 constants as literals): the
+    # frequencies returned by run_qpoints are compared with sqrt|eigenvalue of the lattice Fourier sum| * FACTOR_REF, so a
+    # wrong unit factor shows up as wrong frequencies (end effect).  The identity proved on the unit monomials
+    # (vaspToTHz_sq_monomial) evaluated with the module's own constants is a statement about the model of units.py.
+    FACTOR_REF = float(np.sqrt(1.60217733e-19 / 1.6605402e-27) / 1.0e-10 / (2 * np.pi) / 1e12)
     spec2 = units.EV / units.AMU / units.Angstrom ** 2 / (2 * np.pi) ** 2 / 1e24
+    run.count("unit-factor identity evaluated", section="correspondence")
     if abs(factor ** 2 - spec2) > 1e-13 * spec2:
-        run.violation("phonopy.units.VaspToTHz", "unit-factor-identity", "VaspToTHz^2 = %r but EV/AMU/A^2/(2pi)^2/1e24 = %r" % (factor ** 2, spec2),
-                      dict(value=factor))
+        run.broke("correspondence", "VaspToTHz^2 = %r but EV/AMU/A^2/(2pi)^2/1e24 = %r with the constants of phonopy.units" % (factor ** 2, spec2))
     freq_lines, freq_meta = [], []
-    if abs(factor - 15.633302) > 2e-6:
-        run.violation("phonopy.units.VaspToTHz", "unit-factor", "VaspToTHz = %r, expected 15.633302" % factor, dict(value=factor))
     norac = 800 if thorough else 90
     allnames = list(gen.PROTOTYPES)
     cand_smats = [np.diag(d) for d in ((2, 2, 2), (3, 3, 3), (2, 2, 3), (3, 2, 2), (2, 3, 2), (4, 4, 4), (3, 3, 2))] + [
@@ -457,10 +459,11 @@ def main(run):
                             "%s %s" % (U.Q(float(x)), U.Q(float(np.sqrt(np.abs(x))))) for x in ev)))
                         freq_meta.append((f.copy(), ev, dict(info, q=list(map(float, qq)))))
                     lam = np.sign(f) * (f / factor) ** 2
+                    lam_ref = np.sign(f) * (f / FACTOR_REF) ** 2
                     want = np.linalg.eigvalsh((ref + ref.conj().T) / 2)
                     sc_ = max(float(np.abs(want).max()), floor)
                     run.count("oracle freq %s/%s/%s" % (clause, kind, layout), section="oracle")
-                    if np.abs(lam - want).max() > TOL_EIG * sc_:
+                    if np.abs(lam - want).max() > TOL_EIG * sc_ or np.abs(lam_ref - want).max() > TOL_UNIT * sc_:
                         run.violation("Phonopy.run_qpoints", "%s-range/%s/%s/frequencies" % (clause, kind, layout),
                                       "frequencies differ from those of the lattice Fourier sum (eigenvalue diff %.3g, scale %.3g)"
                                       % (np.abs(lam - want).max(), sc_),
@@ -481,6 +484,127 @@ def main(run):
     common.switch_variant("ser")
     oracle_pass("ser")
     common.switch_variant("omp")
+
+    # ------------------------------------------------------------------ C. many q-points in ONE call, varying counts
+    # (1, 2, primes, thousands): every row of frequencies / dynamical matrices / eigenvectors against the lattice
+    # Fourier sum evaluated per q.  An 8-atom primitive cell with a prime number of q-points in 4001..6000 and a
+    # 96-atom cell (a supercell used as unit cell) with a prime number in 150..300.
+    from phonopy.structure.atoms import PhonopyAtoms
+
+    mq_lines, mq_meta = [], []
+
+    def many_q(tag, ph, kfun, cutoff, counts, variants_opts):
+        pc = ph.primitive
+        nb = 3 * len(pc)
+        fc = gen.pair_fc(ph.supercell, cutoff, kfun=kfun, images=U.images_needed(ph.supercell.cell, cutoff))
+        fcc = full_fc_to_compact_fc(pc, fc)
+        floor = float(np.abs(fc).max()) / float(min(pc.masses))
+        for nq in counts:
+            qarr = np.array([[rng.uniform(-1, 1) for _ in range(3)] for _ in range(nq)])
+            if nq >= 3:
+                qarr[0] = 0.0
+                qarr[-1] = [0.5, 0.0, -0.5]
+            D = U.fourier_dynmat_many(pc.cell, pc.scaled_positions, pc.numbers, pc.masses, kfun, cutoff, qarr)
+            want = np.linalg.eigvalsh((D + D.conj().transpose(0, 2, 1)) / 2)
+            for variant, layout, wev, wdm in variants_opts:
+                _t0 = __import__("time").time()
+                if variant != common._STATE["variant"]:
+                    common.switch_variant(variant)
+                ph.force_constants = (fc if layout == "full" else fcc).copy()
+                ph.run_qpoints(qarr, with_eigenvectors=wev, with_dynamical_matrices=wdm)
+                qd = ph.get_qpoints_dict()
+                info = dict(cell=tag, n_patom=len(pc), n_satom=len(ph.supercell), n_qpoints=nq, variant=variant, layout=layout,
+                            with_eigenvectors=wev, with_dynamical_matrices=wdm, cutoff=float(cutoff), qpoints="rng stream of this seed")
+                f = np.array(qd["frequencies"])
+                bad = None
+                if f.shape != (nq, nb):
+                    bad = "frequencies have shape %s for %d q-points" % (f.shape, nq)
+                else:
+                    lam = np.sign(f) * (f / factor) ** 2
+                    sc_ = max(float(np.abs(want).max()), floor)
+                    err = np.maximum(np.abs(lam - want).max(axis=1),
+                                     (TOL_EIG / TOL_UNIT) * np.abs(np.sign(f) * (f / FACTOR_REF) ** 2 - want).max(axis=1))
+                    if err.max() > TOL_EIG * sc_:
+                        rows = np.nonzero(err > TOL_EIG * sc_)[0]
+                        bad = "frequencies of %d of %d q-points differ from the lattice Fourier sum (first row %d, eigenvalue diff %.3g, scale %.3g)" % (
+                            len(rows), nq, int(rows[0]), float(err.max()), sc_)
+                        info["first_bad_q"] = list(map(float, qarr[rows[0]]))
+                if bad is None and wdm:
+                    dms = np.array(qd["dynamical_matrices"])
+                    if dms.shape != D.shape:
+                        bad = "dynamical_matrices have shape %s for %d q-points" % (dms.shape, nq)
+                    else:
+                        err = np.abs(dms - D).reshape(nq, -1).max(axis=1)
+                        sc_ = max(float(np.abs(D).max()), floor)
+                        if err.max() > TOL * sc_:
+                            rows = np.nonzero(err > TOL * sc_)[0]
+                            bad = "dynamical matrices of %d of %d q-points differ from the lattice Fourier sum (first row %d, diff %.3g)" % (
+                                len(rows), nq, int(rows[0]), float(err.max()))
+                if bad is None and wev:
+                    ev = np.array(qd["eigenvectors"])
+                    if ev.shape != D.shape:
+                        bad = "eigenvectors have shape %s for %d q-points" % (ev.shape, nq)
+                    else:
+                        res = np.abs(np.matmul(D, ev) - ev * want[:, None, :]).reshape(nq, -1).max(axis=1)
+                        unit = np.abs(np.matmul(ev.conj().transpose(0, 2, 1), ev) - np.eye(nb)[None]).reshape(nq, -1).max(axis=1)
+                        sc_ = max(float(np.abs(D).max()), floor)
+                        if res.max() > 1e-7 * sc_ * nb or unit.max() > 1e-7:
+                            rows = np.nonzero((res > 1e-7 * sc_ * nb) | (unit > 1e-7))[0]
+                            bad = "eigenvectors of %d of %d q-points are not orthonormal eigenvectors of the lattice Fourier sum (first row %d)" % (
+                                len(rows), nq, int(rows[0]))
+                run.count("many-q call n=%s/%s" % ("1" if nq == 1 else "2" if nq == 2 else "<100" if nq < 100 else "<1000" if nq < 1000 else ">=1000", variant),
+                          section="oracle")
+                run.count("many-q rows compared", nq, section="oracle")
+                run.cov.setdefault("timing", {})["manyq %s n=%d %s %s ev=%s dm=%s" % (tag[:12], nq, variant, layout, wev, wdm)] = round(__import__("time").time() - _t0, 2)
+                if bad:
+                    run.violation("Phonopy.run_qpoints", "many-qpoints-in-one-call/%s" % ("thousands" if nq >= 1000 else "hundreds" if nq >= 100 else "few"),
+                                  bad, info)
+                run.case(("manyq", tag, nq, variant, layout, wev, wdm, float(qarr[min(1, nq - 1)][0])), nontrivial=nq > 1)
+                # a sample of rows (first, last, around the middle) through the Lean model (compact layout only)
+                if layout == "compact" and wdm and variant == "omp" and nq >= 1000 and not mq_lines:
+                    Tm = U.dm_tables(ph.dynamical_matrix)
+                    dms = np.array(qd["dynamical_matrices"])
+                    if dms.shape == D.shape:
+                        for row in sorted({0, nq // 2 - 1, nq // 2, nq - 1}):
+                            mq_lines.append(U.model_line("c", Tm, True, U.c_phases(qarr[row], Tm["svecs"]), fcc))
+                            mq_meta.append((dms[row].copy(), floor, dict(info, row=int(row), q=list(map(float, qarr[row])))))
+        if common._STATE["variant"] != "omp":
+            common.switch_variant("omp")
+
+    kf8, kd8 = U.make_kfun(rng)
+    cell8, _ = U.get_cell("nacl")
+    ph8 = Phonopy(cell8, supercell_matrix=np.diag([2, 2, 2]), primitive_matrix="P", log_level=0)
+    cut8 = gen.min_lattice_vector(ph8.supercell.cell) * rng.uniform(0.40, 0.49)
+    big_primes = U.primes_between(4001, 6000)
+    n_big = big_primes[rng.randrange(len(big_primes))]
+    small_counts = [1, 2, rng.choice([3, 5, 7, 11, 13]), rng.choice(U.primes_between(50, 400))]
+    many_q("nacl conventional cell as primitive (8 atoms), 2x2x2", ph8, kf8, cut8, small_counts,
+           [("omp", "full", False, True), ("ser", "full", True, False)])
+    many_q("nacl conventional cell as primitive (8 atoms), 2x2x2", ph8, kf8, cut8, [n_big],
+           [("omp", "compact", False, True), ("omp", "full", True, True), ("ser", "full", False, False)]
+           + ([("ser", "compact", True, True)] if thorough else []))
+    base, _ = U.get_cell("cscl")
+    bsc = Phonopy(base, supercell_matrix=np.diag([4, 4, 3]), primitive_matrix="P", log_level=0).supercell
+    ph96 = Phonopy(PhonopyAtoms(cell=bsc.cell, symbols=bsc.symbols, scaled_positions=bsc.scaled_positions),
+                   supercell_matrix=np.eye(3, dtype=int), primitive_matrix="P", log_level=0)
+    kf96, _ = U.make_kfun(rng)
+    p96 = U.primes_between(150, 300)
+    many_q("cscl 4x4x3 supercell used as unit cell (96 atoms)", ph96, kf96, 4.3, [p96[rng.randrange(len(p96))]],
+           [("omp", "full", False, True), ("omp", "compact", True, False)] + ([("ser", "full", True, True)] if thorough else []))
+    if mq_lines:
+        _t0 = __import__("time").time()
+        out = common.lean_run_driver("C02", mq_lines)
+        run.cov.setdefault("timing", {})["manyq lean rows"] = round(__import__("time").time() - _t0, 2)
+        for (impl_row, floor, inf), line in zip(mq_meta, out):
+            model = U.parse_dm(line, 8)
+            run.count("many-q rows through the Lean model", section="correspondence")
+            if model is None:
+                run.broke("correspondence", "model rejected a row of the many-q call", inf)
+                continue
+            ok, d, scale = _close(impl_row, model, floor)
+            if not ok:
+                run.broke("correspondence", "row %d of a %d-q-point run_qpoints call differs from the model by %.3g (scale %.3g)"
+                          % (inf["row"], inf["n_qpoints"], d, scale), inf)
 
     # frequency formula: model `frequency` (sqrt values as used by the code) vs QpointsPhonon
     if freq_lines:
